@@ -17,7 +17,7 @@ RULE = ("(a) single-centre complexes with pairwise distinct monoatomic ligands: 
 ASSUMPTIONS = ["RDKit 2024.09.3 is the environment: RenumberAtoms, its SMILES writer/reader for @SP/@TB/@OH and EnumerateStereoisomers "
                "are trusted", "molecules with unspecified stereogenic units are imported with stereo_complete=False only (with True the "
                "converter documents an arbitrary choice)"]
-BUDGET = {"quick": 240, "thorough": 1800}
+BUDGET = {"quick": 600, "thorough": 1800}
 OPTS = list(itertools.product((False, True), repeat=4))  # (use_atom_map_number, stereo_complete, lone_pair_stereo, resonance)
 
 
@@ -33,7 +33,7 @@ def items(tier, seed):
         for k in range(1, R.NLABELS[cls] + 1):
             out.append({"part": "complex", "cls": cls, "label": k, "tier": tier})
         out.append({"part": "labels", "cls": cls, "tier": tier})
-    for i in range(len(R.organics())):
+    for i in range(len(R.organics()) + len(R.ions())):
         out.append({"part": "organic", "idx": i, "tier": tier})
     # tetrahedral and square-planar complexes over the same atom indices imported one after the other in one process
     out.append({"part": "sequence", "order": ["TH1", "SP1", "TH2", "SP2", "SP3", "TH1"], "tier": tier})
@@ -183,7 +183,7 @@ def _organic(item, out):
 
     oc = out["outcomes"]
     tier = item["tier"]
-    smi = R.organics()[item["idx"]]
+    smi = (R.organics() + R.ions())[item["idx"]]
     isos = R.stereoisomers(smi)
     opts = [OPTS[0], OPTS[3], OPTS[4], OPTS[7]] if tier == "quick" else [o for o in OPTS if not o[0]]
     per_iso = {}
